@@ -219,12 +219,25 @@ def input_class(name):
         return ('invalid', None)
     paths = ex.explore(thunk)
     res = {}
+    import importlib
+    import sys as _sys
+    if oblig.VERIF not in _sys.path:
+        _sys.path.insert(0, oblig.VERIF)
+    grammar = importlib.import_module('contracts.input_grammar')
+    spec = grammar.accepts(name, obj, s, sym)
+    ax = grammar.axioms(s)
 
-    def note(label, ok, detail='', model=None):
+    undec = set()
+
+    def note(label, ok, detail='', model=None, undecided=False):
         cur = res.setdefault(label, [True, 0, '', None])
         cur[1] += 1
-        if not ok and cur[0]:
+        if not ok and undecided and cur[0]:
+            undec.add(label)
+        if not ok and (cur[0] or (label in undec and not undecided)):
             cur[0], cur[2], cur[3] = False, detail, model
+            if not undecided:
+                undec.discard(label)
     nvalid = 0
     for p in paths:
         if p.outcome[0] == 'unsupported':
@@ -240,6 +253,14 @@ def input_class(name):
             continue
         note('valid-never-raises', True)
         tag, v = p.outcome[1]
+        if spec is not None:
+            # the set of accepted texts is exactly the set the class documents (contracts/input_grammar.py), path by path
+            if tag == 'invalid':
+                st, model, be, secs, txt = smt.prove(hyp + ax, z3.Not(spec), strings=True)
+                note('rejects-only-text-that-denotes-no-value', st == 'discharged', f'valid() rejects a text that denotes a value ({txt})', model, undecided=st not in ('discharged', 'refuted'))
+            else:
+                st, model, be, secs, txt = smt.prove(hyp + ax, spec, strings=True)
+                note('accepts-only-text-that-denotes-a-value', st == 'discharged', f'valid() accepts a text that denotes no value of this input ({txt})', model, undecided=st not in ('discharged', 'refuted'))
         if tag == 'invalid':
             continue
         nvalid += 1
@@ -263,7 +284,7 @@ def input_class(name):
         else:
             wit = {'text': (model or {}).get('text')}
             rep = native_input(make, kind, wit['text'])
-            obs.append(Ob(id=oid, status=oblig.REFUTED, backend='symexec+z3', function=fid, clause=f'NOT: {name}: {label}', solver_output=detail, witness=wit, replay=rep,
+            obs.append(Ob(id=oid, status=oblig.UNDECIDED if label in undec else oblig.REFUTED, backend='symexec+z3', function=fid, clause=f'NOT: {name}: {label}', solver_output=detail, witness=wit, replay=rep,
                           replay_spec={'kind': 'input', 'class': name, 'text': wit['text']}))
     return obs
 
@@ -434,17 +455,24 @@ def run(tier, seed, t0):
     for name, _, _ in input_cases():
         tasks.append(Task(f'input/{name}', input_class, name))
     tasks.append(Task('unit/solve', sp.unit_runner, 'solve', weight=10))
+    # what the solver does with the store's reports: an invalid text propagates (never handled as "missing"), a wait on an input is
+    # registered only for an input that is not supplied, a supplied input is never listed as unmet
+    tasks.append(Task('unit/_attempt_field', sp.unit_runner, '_attempt_field', weight=2))
     obs = oblig.run_tasks(tasks)
     keep = []
     for o in obs:
         if o.id.startswith('SOLVER/'):
-            if 'stored-answer' in o.id or 'prompt@' in o.id and 'declared' in o.id:
+            if 'stored-answer' in o.id or 'prompt@' in o.id and 'declared' in o.id or (o.id.startswith('SOLVER/_attempt_field/') and any(
+                    k in o.id for k in ('wait-on-input-is-justified', 'propagated-exception', 'no-internal-error', 'inputs-untouched', 'met-inputs-are-provided', 'subset'))):
                 o.id = o.id.replace('SOLVER/', 'C11/solver/')
                 keep.append(o)
         else:
             keep.append(o)
+    from . import solver_units as su
+    solver_part = su.finish_with_refutation('C11', [o for o in keep if o.id.startswith('C11/solver/')], lambda o: True, seed, tier)
+    keep = [o for o in keep if not o.id.startswith('C11/solver/')] + solver_part
     return oblig.finish('C11', tier, seed, keep, t0,
-                        functions=['inputs.py:InputStore.__getitem__', 'inputs.py:InputStore.provides', 'inputs.py:Input.valid'] + [f'inputs.py:{n}' for n, _, _ in input_cases()] + ['__init__.py:prompt_input', 'solver.py:Solver._attempt_input'],
+                        functions=['inputs.py:InputStore.__getitem__', 'inputs.py:InputStore.provides', 'inputs.py:Input.valid'] + [f'inputs.py:{n}' for n, _, _ in input_cases()] + ['__init__.py:prompt_input', 'solver.py:Solver._attempt_input', 'solver.py:Solver._attempt_field'],
                         trusted_base=base.TRUSTED,
                         assumptions=base.assumptions('A-PY', 'A-BUILTIN', 'A-CFG', 'A-ENUM') + [
                             'A-BUILTIN float(): raises ValueError or returns; after stripping, [+-]?(inf|infinity|nan) in any case is accepted and not finite; finiteness of other accepted text (e.g. 1e999) is an uninterpreted predicate that the code has to test',
